@@ -182,3 +182,31 @@ def run(project, chk):
                 chk.check(not dep, "R4", f.short, norm_text(n), project.loc(m, n), "target_contrast does not depend on min_contrast", how="no min_contrast in the assigned expression",
                           message="the search target is derived from the minimum: a weaker request searches differently", nontrivial=False)
     chk.floor("uses of min_contrast in optimisation.py", n_uses, 15)
+
+
+_run_own16 = run
+
+
+def run(project, chk):      # noqa: F811
+    _run_own16(project, chk)
+    # R5: the public entry runs the optimiser once, in the mode it was asked for
+    chk.rule("R5", "ColorPair.make_readable calls check_and_fix_contrast exactly once, with its own mode and very_readable: no request is silently served by another mode")
+    import ast as _ast
+    from sa.wire import Origins as _Org, show as _show
+    from sa.resolve import Scope as _Scope, own_nodes as _own, bind_args as _bind
+    mk = project.funcs.get("cm_colors.core.colors.ColorPair.make_readable")
+    caf = project.funcs.get("cm_colors.core.optimisation.check_and_fix_contrast")
+    if mk is None or caf is None:
+        return
+    sc = _Scope(project, mk)
+    org = _Org(project, mk)
+    calls = [c for c in _own(mk.node) if isinstance(c, _ast.Call) and sc.resolve_call(c) == caf.qualname]
+    chk.check(len(calls) == 1, "R5", mk.short, f"{len(calls)} optimiser call(s)", project.loc(mk.module, calls[1] if len(calls) > 1 else mk.node), "one optimiser run per request",
+              how="call-site census", message=f"make_readable runs the optimiser {len(calls)} times: a second run (e.g. a retry in another mode) makes the outcome of mode 1 depend on what mode 2 can do")
+    for c in calls:
+        b = _bind(caf, c)
+        for pname, want in (("mode", ("param", "mode")), ("premium", ("param", "very_readable"))):
+            a = b.get(pname)
+            o = org.at(a) if a is not None else None
+            chk.check(o == want, "R5", mk.short, _ast.unparse(c)[:80], project.loc(mk.module, c), f"the optimiser's `{pname}` is the caller's {want[1]}", how=f"origin: {_show(o) if o else None}",
+                      message=f"the optimiser is run with {pname} = {_show(o) if o else 'its default'} instead of the caller's {want[1]}")
